@@ -308,7 +308,7 @@ def cases(tier, seed):
     for i, c in enumerate(out):
         # quick: sections other than A and C run three of the six round trips (alternating halves)
         c["combos"] = "all" if (not quick or i < n_all or c["attr"] not in ("plain",)) else ("a", "b")[i % 2]
-    nrand = 80 if quick else 7000
+    nrand = 80 if quick else 3000
     for j in range(nrand):
         c = _draw(gen.rng_for(seed, 13, j))
         c["combos"] = ("a", "b")[j % 2] if quick else "all"
